@@ -97,6 +97,160 @@ fn complex_vs_real<S: Sc>(kind: Kind, items: usize) {
     }
 }
 
+
+type CRhs2<S> = Box<dyn FnMut(S, &[Complex<S>], &mut ()) -> Result<BVector<Complex<S>, Const<2>>, UserError>>;
+
+fn complex_run2<'a, S: Sc, Slv>(c: &Conf<S>, z0: [Complex<S>; 2], lam: Complex<S>, items: usize) -> Vec<(S, [Complex<S>; 2])>
+where
+    Slv: IVPSolver<'a, Const<2>, Field = Complex<S>, RealField = S, UserData = (), Error = IVPError, Derivative = CRhs2<S>>,
+{
+    let f: CRhs2<S> = Box::new(move |_t: S, y: &[Complex<S>], _d: &mut ()| Ok(BVector::<Complex<S>, Const<2>>::from_iterator_generic(Const::<2>, U1, [lam * y[0], lam * y[1]].into_iter())));
+    let built = (|| -> Result<_, IVPError> {
+        Slv::new()?
+            .with_tolerance(c.tol)?
+            .with_minimum_dt(c.dt_min)?
+            .with_maximum_dt(c.dt_max)?
+            .with_initial_time(c.t0)?
+            .with_ending_time(c.t1)?
+            .with_initial_conditions_slice(&z0)?
+            .with_derivative(f)
+            .solve(())
+    })();
+    let mut out = vec![];
+    if let Ok(mut it) = built {
+        while out.len() < items {
+            match it.next() {
+                Some(Ok((t, y))) => out.push((t, [y[0], y[1]])),
+                _ => break,
+            }
+        }
+    }
+    out
+}
+
+/// complex dimension 2 vs the equivalent real 4x4 system (the error NORM couples the components: a norm that is not
+/// the Euclidean norm of the underlying real vector changes which steps are accepted).  y' = lambda*y componentwise,
+/// concrete complex lambda and step bounds, start (alpha u1, beta u2) with concrete complex directions u1, u2 a
+/// quarter turn apart and symbolic real amplitudes, tolerance symbolic.
+fn complex2_vs_real4<S: Sc>(kind: Kind, items: usize) {
+    let (lr, li) = (S::lit(0.25), S::lit(1.0));
+    let alpha = S::input("alpha", -3.0, 3.0);
+    let beta = S::input("beta", -3.0, 3.0);
+    let tol = S::input("tol", 1e-8, 1e-2);
+    let t0 = S::input("t0", -1.0, 1.0);
+    S::no_div_zero_forks();
+    // u1 = 1, u2 = i
+    let zero = S::lit(0.0);
+    let c = Conf { t0, t1: t0 + S::lit(10.0), dt_min: S::lit(0.0703125), dt_max: S::lit(0.125), tol, y0: vec![alpha, zero, zero, beta] };
+    let log = new_log::<S>();
+    let real = run_d4(
+        kind,
+        &c,
+        fn_rhs::<S, Const<4>, _>(log.clone(), move |_t: S, y: &[S]| vec![lr * y[0] - li * y[1], li * y[0] + lr * y[1], lr * y[2] - li * y[3], li * y[2] + lr * y[3]]),
+        items,
+        &log,
+        0,
+    );
+    let z0 = [Complex::new(alpha, zero), Complex::new(zero, beta)];
+    let cplx = match kind {
+        Kind::RK45 => complex_run2::<S, bacon_sci::ivp::rk::RungeKutta45<Complex<S>, Const<2>, (), CRhs2<S>>>(&c, z0, Complex::new(lr, li), items),
+        _ => complex_run2::<S, RungeKutta23<Complex<S>, Const<2>, (), CRhs2<S>>>(&c, z0, Complex::new(lr, li), items),
+    };
+    S::reach("complex2-vs-real4");
+    S::prove("same-number-of-points", S::b_const(real.items.len() == cplx.len()));
+    for (a, (t, z)) in real.items.iter().zip(cplx.iter()) {
+        S::prove_m("same-times", S::b_close(a.t, *t, S::lit(1e-10)), S::b_gt((a.t - *t).sabs(), S::lit(1e-4)));
+        for k in 0..2 {
+            S::prove_m("real-part-equals-real-component", S::b_close(a.y[2 * k], z[k].re, S::lit(1e-9)), S::b_gt((a.y[2 * k] - z[k].re).sabs(), S::lit(1e-4)));
+            S::prove_m("imaginary-part-equals-imaginary-component", S::b_close(a.y[2 * k + 1], z[k].im, S::lit(1e-9)), S::b_gt((a.y[2 * k + 1] - z[k].im).sabs(), S::lit(1e-4)));
+        }
+    }
+}
+
+
+/// complex dimension 2: the accept / reject decisions of the Runge-Kutta controllers agree with the EUCLIDEAN norm
+/// of the embedded estimate (sum of squared moduli), i.e. with the norm of the equivalent real 4-vector.  The stage
+/// derivatives are seeded concrete complex directions times two symbolic real amplitudes; tolerance symbolic.
+/// (A single complex run compared with a harness-side reference norm: comparing two runs decision by decision is
+///  ill-posed, their estimates differ in the last bit and a tolerance in between separates them.)
+fn complex2_norm<S: Sc>(kind: Kind) {
+    use super::c03::{bogacki_shampine23, fehlberg45};
+    use std::cell::RefCell;
+    use std::rc::Rc;
+    let tb = if kind == Kind::RK45 { fehlberg45() } else { bogacki_shampine23() };
+    let o = tb.c.len();
+    let alpha = S::input("alpha", -4.0, 4.0);
+    let beta = S::input("beta", -4.0, 4.0);
+    let tol = S::input("tol", 1e-8, 1.0);
+    S::no_div_zero_forks();
+    let c = Conf { t0: S::lit(0.25), t1: S::lit(8.0), dt_min: S::lit(0.0703125), dt_max: S::lit(0.125), tol, y0: vec![] };
+    let log: Rc<RefCell<Vec<[Complex<S>; 2]>>> = Rc::new(RefCell::new(vec![]));
+    let l2 = log.clone();
+    let f: CRhs2<S> = Box::new(move |_t: S, _y: &[Complex<S>], _d: &mut ()| {
+        let k = l2.borrow().len() as i64;
+        let mut g = super::util::Lcg::new(613 * k + 17);
+        let v = [
+            Complex::new(alpha * S::lit(g.range_r(-1.0, 1.0, 2)), alpha * S::lit(g.range_r(-1.0, 1.0, 2))),
+            Complex::new(beta * S::lit(g.range_r(-1.0, 1.0, 2)), beta * S::lit(g.range_r(-1.0, 1.0, 2))),
+        ];
+        l2.borrow_mut().push(v);
+        Ok(BVector::<Complex<S>, Const<2>>::from_iterator_generic(Const::<2>, U1, v.into_iter()))
+    });
+    let z0 = [Complex::new(S::lit(0.5), S::lit(0.25)), Complex::new(S::lit(-0.5), S::lit(1.0))];
+    fn go<'a, S: Sc, Slv>(c: &Conf<S>, z0: &[Complex<S>; 2], f: CRhs2<S>) -> bool
+    where
+        Slv: IVPSolver<'a, Const<2>, Field = Complex<S>, RealField = S, UserData = (), Error = IVPError, Derivative = CRhs2<S>>,
+    {
+        let built = (|| -> Result<_, IVPError> {
+            Slv::new()?
+                .with_tolerance(c.tol)?
+                .with_minimum_dt(c.dt_min)?
+                .with_maximum_dt(c.dt_max)?
+                .with_initial_time(c.t0)?
+                .with_ending_time(c.t1)?
+                .with_initial_conditions_slice(z0)?
+                .with_derivative(f)
+                .solve(())
+        })();
+        match built {
+            Ok(mut it) => matches!(it.next(), Some(Ok(_))),
+            Err(_) => false,
+        }
+    }
+    let yielded = match kind {
+        Kind::RK45 => go::<S, bacon_sci::ivp::rk::RungeKutta45<Complex<S>, Const<2>, (), CRhs2<S>>>(&c, &z0, f),
+        _ => go::<S, RungeKutta23<Complex<S>, Const<2>, (), CRhs2<S>>>(&c, &z0, f),
+    };
+    let calls = log.borrow();
+    S::reach("complex2-norm");
+    S::prove("stage-count-multiple-of-order", S::b_const(calls.len() % o == 0 && calls.len() > 0));
+    if calls.len() % o != 0 || calls.is_empty() {
+        return;
+    }
+    let attempts = calls.len() / o;
+    for a in 0..attempts {
+        let ch = &calls[a * o..(a + 1) * o];
+        let mut est_sq = S::lit(0.0);
+        for d in 0..2 {
+            let (mut re, mut im) = (S::lit(0.0), S::lit(0.0));
+            for i in 0..o {
+                let w = S::rat(tb.e[i].0, tb.e[i].1);
+                re = re + w * ch[i][d].re;
+                im = im + w * ch[i][d].im;
+            }
+            est_sq = est_sq + re * re + im * im;
+        }
+        let accepted = yielded && a + 1 == attempts;
+        if accepted {
+            let lim = tol * S::lit(1.0 + 1e-6);
+            S::prove_m("accepted-step-has-euclidean-estimate-within-tolerance", S::b_le(est_sq, lim * lim), S::b_gt(est_sq, lim * lim * S::lit(1.21)));
+        } else {
+            let lim = tol * S::lit(1.0 - 1e-6);
+            S::prove_m("rejected-step-has-euclidean-estimate-above-tolerance", S::b_le(lim * lim, est_sq), S::b_lt(est_sq, lim * lim * S::lit(0.81)));
+        }
+    }
+}
+
 /// Euler's classical first-order bound on y' = lambda*y over a few steps: |y_n - y(t_n)| <= K * dt
 fn euler_first_order<S: Sc>(steps: usize) {
     let lambda = S::input("lambda", -1.0, 1.0);
@@ -147,5 +301,33 @@ pub fn run(pr: &mut PropRun, t: &Tier) {
         cfg.query_timeout_s = 120.0;
         run_h!(pr, cfg, complex_vs_real, Kind::RK23, 1);
     }
+    for kind in [Kind::RK23, Kind::RK45] {
+        let mut cfg = t.cfg(&format!("C04:complex2-norm({})", kind.name()));
+        cfg.max_decisions = 80;
+        cfg.max_paths = 300;
+        cfg.query_timeout_s = if t.thorough { 120.0 } else { 30.0 };
+        run_h!(pr, cfg, complex2_norm, kind);
+    }
+    if t.thorough {
+        // (decision-by-decision comparison of two runs: razor-thin tolerance windows separate estimates that differ
+        //  in the last bit; kept for the thorough tier where its unconfirmed candidates are reported as such)
+        let mut cfg = t.cfg("C04:complex2-vs-real4(RK23)");
+        cfg.max_decisions = 80;
+        cfg.max_paths = 300;
+        cfg.query_timeout_s = 120.0;
+        run_h!(pr, cfg, complex2_vs_real4, Kind::RK23, 2);
+    }
     run_h!(pr, t.cfg("C04:euler-first-order(4 steps)"), euler_first_order, 4);
+    // global accuracy of the multistep solvers on y' = lambda*y through an accepted and through a REJECTED start-up
+    // (harness shared with C02; the rejected attempt's retry factor is symbolic)
+    use super::c02::{accepted_startup_window, multistep_linear, rejected_startup_window};
+    for kind in [Kind::Adams3, Kind::Adams5] {
+        for lambda in [-1.25, 0.75] {
+            for (name, w, y0c) in [("rejected-start-up", rejected_startup_window(kind, lambda, 0.001, 0.2), Some(-1.5)), ("accepted-start-up", accepted_startup_window(kind, lambda, 0.001, 0.2), None)] {
+                let mut cfg = t.cfg(&format!("C04:global-accuracy({},lambda={},{})", kind.name(), lambda, name));
+                cfg.max_decisions = 200;
+                run_h!(pr, cfg, multistep_linear, kind, lambda, 0.001, 0.2, w, kind.startup() + 3, true, y0c);
+            }
+        }
+    }
 }
